@@ -108,6 +108,22 @@ func (h *hookState) tune(name string, def int64) int64 {
 	return def
 }
 
+// awaitStart waits until the flush task of the n-th rotation has started; the DB it belongs to
+func (h *hookState) awaitStart(n int) (*dkv.DB, error) {
+	deadline := time.Now().Add(stepWait)
+	timer := time.AfterFunc(stepWait, func() { h.mu.Lock(); h.cond.Broadcast(); h.mu.Unlock() })
+	defer timer.Stop()
+	h.mu.Lock()
+	defer h.mu.Unlock()
+	for h.flushStart < n {
+		if time.Now().After(deadline) {
+			return nil, fmt.Errorf("the padded write did not fill the memtable (flush tasks started %d, wanted %d)", h.flushStart, n)
+		}
+		h.cond.Wait()
+	}
+	return h.lastDB, nil
+}
+
 // awaitQuiet waits until at least `want` rotations have been flushed and compacted and none is in flight.
 func (h *hookState) awaitQuiet(want int) (*dkv.DB, error) {
 	deadline := time.Now().Add(stepWait)
@@ -269,6 +285,8 @@ type run struct {
 	ckptID uint64
 	acks   []*snapshotpb.OperatorCheckpoint
 	rot    int // rotations the harness has caused so far (process-wide hook counters)
+	pending map[int]int // operator -> padded writes whose Flush step has not been reached yet
+	dbOf    map[int]*dkv.DB
 	failed bool
 	serial int
 }
@@ -276,6 +294,14 @@ type run struct {
 func (r *run) violate(step int, what string, exp, obs any) {
 	r.failed = true
 	r.res.Violations = append(r.res.Violations, mbt.Violation{Property: r.in.Property, Behaviour: r.bi, Step: step, What: what, Expected: exp, Observed: obs})
+}
+
+func (r *run) pendingTotal() int {
+	n := 0
+	for _, v := range r.pending {
+		n += v
+	}
+	return n
 }
 
 func (r *run) machinery(format string, a ...any) {
@@ -362,6 +388,7 @@ func (r *run) deploy(step int, n int, regime string, st mbt.Step) bool {
 	}
 	r.gens = append(r.gens, g)
 	r.cur = g
+	r.pending, r.dbOf = map[int]int{}, map[int]*dkv.DB{}
 	// observable "AssignRanges result": which recorded checkpoints each new operator was handed
 	if st != nil && r.acks != nil {
 		idx := map[string]int{}
@@ -521,7 +548,7 @@ func replay(bi int, beh []mbt.Step, in *mbt.Input, res *mbt.Result) {
 		return
 	}
 	defer os.RemoveAll(dir)
-	r := &run{bi: bi, in: in, res: res, dir: dir, keyNo: map[string]int{}}
+	r := &run{bi: bi, in: in, res: res, dir: dir, keyNo: map[string]int{}, pending: map[int]int{}, dbOf: map[int]*dkv.DB{}}
 	hooks.mu.Lock()
 	hooks.memSize = int64(in.CfgInt("MemSize", 4096))
 	r.rot = hooks.compDone
@@ -572,7 +599,19 @@ func replay(bi int, beh []mbt.Step, in *mbt.Input, res *mbt.Result) {
 			} else if st.Int("v") == 0 {
 				c = cmd{Op: "del"}
 			}
-			flushNext := si+1 < len(beh) && beh[si+1].Str("a") == "Flush" && beh[si+1].Int("o") == o+1
+			// is this the write that fills the memtable? (the model's Flush(o) follows the last write of o; steps of
+			// other operators may lie in between)
+			flushNext := false
+			for j := si + 1; j < len(beh); j++ {
+				a := beh[j].Str("a")
+				if a == "Ckpt" || a == "Deploy" || a == "Finish" {
+					break
+				}
+				if beh[j].Int("o") == o+1 {
+					flushNext = a == "Flush"
+					break
+				}
+			}
 			if flushNext {
 				c.Pad = in.CfgInt("MemSize", 4096)
 			}
@@ -595,15 +634,28 @@ func replay(bi int, beh []mbt.Step, in *mbt.Input, res *mbt.Result) {
 			}
 			if flushNext {
 				r.rot++
-			} else {
+				r.pending[o]++
+				db, err := hooks.awaitStart(r.rot)
+				if err != nil {
+					r.machinery("step %d: %v", si, err)
+					break
+				}
+				r.dbOf[o] = db
+			}
+			if r.pendingTotal() == 0 {
 				r.readBack(si, exp, "after a write")
 			}
 		case "Flush":
-			db, err := hooks.awaitQuiet(r.rot)
-			if err != nil {
+			if r.pending[st.Int("o")-1] != 1 {
+				r.machinery("step %d: Flush(%d) without a padded write", si, st.Int("o"))
+				break
+			}
+			r.pending[st.Int("o")-1] = 0
+			if _, err := hooks.awaitQuiet(r.rot); err != nil {
 				r.machinery("step %d: %v", si, err)
 				break
 			}
+			db := r.dbOf[st.Int("o")-1]
 			hooks.mu.Lock()
 			extra := hooks.compDone != r.rot
 			hooks.mu.Unlock()
@@ -617,6 +669,9 @@ func replay(bi int, beh []mbt.Step, in *mbt.Input, res *mbt.Result) {
 					res.Count("layout_differs", 1)
 					if len(res.DriftNotes) < 5 {
 						res.DriftNotes = append(res.DriftNotes, fmt.Sprintf("behaviour %d step %d: tables per level %v, model %v", bi, si, got, want))
+						if os.Getenv("RESCALE_DEBUG") != "" {
+							fmt.Fprintln(os.Stderr, db.Diagnostics())
+						}
 					}
 				}
 			}
